@@ -888,7 +888,7 @@ theorem purge_step_exact {types : List String} (hwt : WFTypes lower possible typ
   have hmemof : ∀ e q, (cacheAfter lower hist).getUnique lower q = some e → e ∈ specAfter lower hist ∧ e.ident lower = q.ident lower := by
     intro e q hq; rw [href.getUnique q] at hq; exact ⟨Flat.getUnique_mem hq, Flat.getUnique_ident hq⟩
   unfold Browser.onPurge
-  rw [hexp]
+  rw [purge_expire_now_eq, purge_updates_now_eq, hexp]
   simp only [bind, Except.bind, pure, Except.pure]
   generalize hus : l.map (fun r => (r, some r)) = us
   have hgood : Browser.Good b.types (Browser.updateRecords lower possible c' now b us) :=
